@@ -159,6 +159,8 @@ def _main(args) -> int:
 
     wall = time.monotonic() - t0
     ev = impl.evidence(prop, args.tier, base, done, selftest, wall, t_runs, len(new), [k.get("signature") for k, _ in listed], args.jobs)
+    if hasattr(ctx, "stats"):
+        ev["coverage"]["goldens"] = dict(ctx.stats)
     os.makedirs(EVIDENCE, exist_ok=True)
     with open(os.path.join(EVIDENCE, prop + ".json"), "w") as f:
         json.dump(ev, f, indent=1, sort_keys=True)
